@@ -1033,8 +1033,11 @@ def random_document(rnd, size=None, lang='en', kinds=None, max_depth=5, glossary
         g.pool = [k for k in g.pool if not k.startswith('usermac')]
     if theorems:
         # (yp: the generated title is longer than the \begin{yp} that produces it)
-        g.theorems = [('ythm', 'Ytheorem'), ('ylem', 'Ylemma'), ('yp', 'Ysupplementaryproposition')]
-        g.w('\\newtheorem{ythm}{Ytheorem}\n\\newtheorem{ylem}[ythm]{Ylemma}\n\\newtheorem{yp}{Ysupplementaryproposition}\n')
+        # (yq: the title is written with macros: accents, a font macro with braces)
+        g.theorems = [('ythm', 'Ytheorem'), ('ylem', 'Ylemma'), ('yp', 'Ysupplementaryproposition'),
+                      ('yq', 'Yth\u00e9or\u00e8meysatz')]
+        g.w('\\newtheorem{ythm}{Ytheorem}\n\\newtheorem{ylem}[ythm]{Ylemma}\n\\newtheorem{yp}{Ysupplementaryproposition}\n'
+            "\\newtheorem{yq}{Yth\\'eor\\`eme\\textbf{ysatz}}\n")
     if glossary_file:
         g.w('\\LTinput{' + glossary_file + '}\n')
         if rnd.random() < .3:
